@@ -22,7 +22,7 @@ def decl_specs(tier):
         if alphabet.scan(P) & EXCLUDED_FEATURES:
             continue
         specs.append({'names': list(names), 'wrapper': w})
-    for c in ('m0', 'mab', 'rx', 'sm', 'om', 'rxy'):
+    for c in ('m0', 'mab', 'rx', 'sm', 'om', 'rxy', 'rxlb', 'rxwb'):
         for sbl in (2, 3):
             specs.append({'names': [c, 'i1'], 'wrapper': 'a', 'opts': {'search_buffer_length': sbl}})
             specs.append({'names': ['dn', c], 'wrapper': 'b', 'opts': {'search_buffer_length': sbl}})
